@@ -219,7 +219,7 @@ class PDFResourceManager:
         else:
             log.debug("get_font: create: objid=%r, spec=%r", objid, spec)
             if settings.STRICT:
-                if spec["Type"] is not LITERAL_FONT:
+                if spec.get("Type") is not LITERAL_FONT:
                     raise PDFFontError("Type is not /Font")
             # Create a Font object.
             if "Subtype" in spec:
